@@ -14,7 +14,7 @@ python3 - "$id" "$name" "$with" "$without" "$caught" <<'PY'
 import json,sys
 id,name,w,wo,caught=sys.argv[1:6]
 notes=open('/verif/seeded/%s/notes.md'%name).read()
-json.dump({"property":id[:3],"round":(1 if len(id)==3 else "abcdefghij".index(id[3])+1),"name":name,"breaks":"see notes.md (written by the sub-agent that produced the change, without access to /verif)",
+json.dump({"property":id[:3],"round":(1 if len(id)==3 else (ord(id[3])-ord("a")+1)),"name":name,"breaks":"see notes.md (written by the sub-agent that produced the change, without access to /verif)",
  "needs_to_manifest":"see notes.md","verified_by_me":{"cargo test with change (162 original + demo)":w,"cargo test without change":wo},
  "checks_run":caught},open('/verif/seeded/%s/meta.json'%name,'w'),indent=1)
 PY
